@@ -115,6 +115,9 @@ class TimePointDumper(object):
                 properties += item_properties
             else:
                 expression += item
+        if not timepoint.truncated and timepoint.get_is_week_date():
+            # strftime directives refer to the calendar year, not week year.
+            timepoint = timepoint.to_calendar_date()
         return self._dump_expression_with_properties(
             timepoint, expression, properties)
 
